@@ -270,6 +270,37 @@ def closed_flag(chk, prog):
             chk.ob("R3.drop_close", f, "the frame sent on drop is a Close", "Close" in _what(d), f"{_what(d)}")
 
 
+def blocking_mode_restored(chk, prog):
+    """R7: the probe leaves the socket in blocking mode: once set_nonblocking() succeeded, every return passes set_blocking(),
+    and every blocking read (read_exact / from_stream_inner) comes after it."""
+    fn = "humphrey_ws::frame::Frame::from_stream_nonblocking"
+    b = prog.bodies.get(fn)
+    chk.floor("Frame::from_stream_nonblocking", 1 if b else 0, 1)
+    if not b:
+        return
+    nb = [blk for blk, t in b.calls_to(r"::set_nonblocking$")]
+    bl = [blk for blk, t in b.calls_to(r"::set_blocking$")]
+    chk.floor("set_nonblocking / set_blocking sites in the probe", len(nb) + len(bl), 2)
+    rets = core.return_blocks(b)
+    for n in nb:
+        starts = []
+        tb = core.bool_test_of_call(b, [blk for blk, t in b.calls_to(r"Result::<T, E>::is_err$") if desc_contains(describe(prog, b, t["args"][0]), lambda y: y[0] == "call" and len(y) > 3 and y[3] == n)][0]) \
+            if [blk for blk, t in b.calls_to(r"Result::<T, E>::is_err$") if desc_contains(describe(prog, b, t["args"][0]), lambda y: y[0] == "call" and len(y) > 3 and y[3] == n)] else None
+        if tb:
+            starts = [tb[2]]     # is_err() == false: the socket is now non-blocking
+        else:
+            starts = b.succs(n)
+        w = core.must_pass(b, starts, rets, through_nodes=bl, after_from=False)
+        chk.ob("R7.blocking_restored", fn, "set_nonblocking() succeeded -> every return passes set_blocking()", w is None and bool(bl),
+               "the probe can return (e.g. `nothing yet`) with the socket still non-blocking: later blocking receives fail with WouldBlock and large sends are cut short mid-frame",
+               path=w)
+    blocking_reads = [blk for blk, t in b.calls_to(r"Read::read_exact$|frame::Frame::from_stream_inner")]
+    chk.floor("blocking reads in the probe", len(blocking_reads), 2)
+    for r in blocking_reads:
+        w = core.must_pass(b, nb, [r], through_nodes=bl)
+        chk.ob("R7.blocking_restored", fn, f"{b.term(r)['callee'].split('::')[-1]}: the rest of the frame is read in blocking mode", w is None, "", where=b.where(r), path=w)
+
+
 def run(chk):
     prog = chk.use(core.load("A", fresh=(chk.tier == "thorough")))
     chk.explanation = (
@@ -279,7 +310,7 @@ def run(chk):
         "variants Ping -> Pong with the same payload, Close -> Close + ConnectionClosed, Pong -> nothing, control frames are not collected, payloads are "
         "concatenated in order, text flag from the first fragment; closed is set on ConnectionClosed and Drop sends Close unless closed; blocking and "
         "non-blocking twins agree; the non-blocking header read uses the count it got (C03 PARTIALREAD).")
-    chk.not_decided = "timing of non-blocking receive; SHA-1/Base64 correctness (C18); interleavings of control frames beyond the per-frame rule"
+    chk.not_decided = "timing of non-blocking receive; SHA-1 compression / Base64 bit shuffling (C18; only the SHA-1 padding arithmetic is decided here, for every key length); interleavings of control frames beyond the per-frame rule"
     chk.assumptions = ["rustc type checking / MIR construction / callee resolution"]
     sinks(chk, prog)
     handshake(chk, prog)
@@ -292,6 +323,9 @@ def run(chk):
         chk.ob("R5.twins", "Message::from_stream vs from_stream_nonblocking", f"{k[0]}: {k[1]}", fa.get(k) == fb.get(k), f"blocking: {fa.get(k)}, non-blocking: {fb.get(k)}")
     closed_flag(chk, prog)
     probe_only_first(chk, prog)
+    blocking_mode_restored(chk, prog)
+    from . import c18
+    c18.sha1_padding(chk, prog, rule="R1.accept_sha1_padding")
     from . import c03
     bodies = panics.reach(prog, ["humphrey_ws::frame::Frame::from_stream_nonblocking"])
     before = len(chk.obligations)
